@@ -57,6 +57,29 @@ pub fn gen(seed: u64, n: usize, _tier: &str) -> Vec<Case> {
         }
         cases.push(Case { id: format!("cat-{}", id), ops, outs: vec![] }); id += 1;
     }
+    // expiry of a watched key counts as a change: by deadline alone, after a lazy removal by a read
+    // (any connection), after a sweeper pass; the sweeper is stepped through the VERIF hook
+    for (ei, how) in ["deadline", "read-other", "read-self", "sweep", "exists-other", "sweep-then-recreate", "not-yet"].iter().enumerate() {
+        let mut ops = vec![conn_op(1), conn_op(2), cmd_op(2, &[b"VERIF", b"SWEEP", b"PAUSE"])];
+        ops.push(cmd_op(2, &[b"SET", b"wk", b"v", b"PX", b"200"]));
+        ops.push(cmd_op(2, &[b"SET", b"kg", b"same-shard"]));
+        ops.push(cmd_op(1, &[b"WATCH", b"wk"]));
+        ops.push(cmd_op(1, &[b"GET", b"wk"]));
+        if *how != "not-yet" { ops.push(sleep_op(300)); }
+        match *how {
+            "read-other" => ops.push(cmd_op(2, &[b"GET", b"wk"])),
+            "read-self" => ops.push(cmd_op(1, &[b"GET", b"wk"])),
+            "exists-other" => ops.push(cmd_op(2, &[b"EXISTS", b"wk"])),
+            "sweep" => ops.push(sweep_op()),
+            "sweep-then-recreate" => { ops.push(sweep_op()); ops.push(cmd_op(2, &[b"SET", b"wk", b"v"])); }
+            _ => {}
+        }
+        ops.push(cmd_op(1, &[b"MULTI"]));
+        ops.push(cmd_op(1, &[b"SET", b"probe", b"ran"]));
+        ops.push(cmd_op(1, &[b"EXEC"]));
+        ops.push(cmd_op(2, &[b"GET", b"probe"]));
+        cases.push(Case { id: format!("expiry-{}-{}", ei, id), ops, outs: vec![] }); id += 1;
+    }
     // writer inside another connection's EXEC; UNWATCH / DISCARD / EXEC forget; WATCH under another db
     for _ in 0..n {
         let mut ops = vec![conn_op(1), conn_op(2), conn_op(3)];
